@@ -7,7 +7,12 @@ import vlib
 LEVEL = "model_checking"
 # exact-in-binary affine maps v -> a*v + b (a > 0)
 MAPS = [(1, 0, "int"), (1.0, 0.0, "float"), (0.125, 5.0, "x2^-3+5"), (float(2 ** 20), 0.0, "x2^20"), (3.0, -7.0, "x3-7"),
-        (2.0 ** -40, 0.0, "x2^-40")]       # a tiny coordinate scale: the tolerance is relative to the scale, not absolute
+        (2.0 ** -40, 0.0, "x2^-40"),       # a tiny coordinate scale: the tolerance is relative to the scale, not absolute
+        # maps that are NOT exact in binary: the coordinates carry rounding noise (1e-16 relative), far below the tolerance and far below the
+        # smallest non-zero miss distance of the lattice, so the class (accept / reject / free) and the inside part are unchanged - but the
+        # code's own intersections no longer land exactly on the boundary (its precision failsafe is reached through these)
+        (1.0 / 3.0, 0.0, "x/3"), (0.1, 0.7, "x0.1+0.7")]
+VMAPS = [(0.125, 0.0, "k/8"), (1.0 / 3.0, 0.0, "k/3"), (0.1, 0.7, "0.1k+0.7"), (3.141592653589793, 0.0, "k*pi")]
 REL_TOL = 1e-9
 
 
@@ -20,10 +25,13 @@ def rat(v):
     return v[0] / v[1]
 
 
-def call(pu, seg, bounds):
+def call(pu, seg, bounds, tuples=False, limit=2.0):
     try:
-        with vlib.time_limit(2.0):
-            acc, out = pu.clip_segment([list(seg[0]), list(seg[1])], [list(bounds[0]), list(bounds[1])])
+        with vlib.time_limit(limit):
+            if tuples:
+                acc, out = pu.clip_segment((tuple(seg[0]), tuple(seg[1])), (tuple(bounds[0]), tuple(bounds[1])))
+            else:
+                acc, out = pu.clip_segment([list(seg[0]), list(seg[1])], [list(bounds[0]), list(bounds[1])])
         return "ok", acc, out
     except vlib.CallTimeout:
         return "loop", None, None
@@ -63,6 +71,66 @@ def judge(abs_rec, status, acc, out, f, scale):
     return None
 
 
+def corner_stage(ctx, pu, rng, ncand, nsample):
+    """segments aimed from outside THROUGH a corner into the interior, under inexact maps: the code's intersection with the first boundary lands
+    a rounding error away from the second, which is where its precision failsafe (and a loop without it) lives. All candidates are run; every
+    one whose observed outcome is unusual (not accepted, not returned, an end point not inside the rectangle) and a sample of the rest go to TLC."""
+    unusual, rest = [], []
+    loops = 0
+    for _ in range(ncand):
+        S = rng.choice([4, 16, 128])
+        xmin = rng.randint(-S, S - 1)
+        xmax = rng.randint(xmin + 1, S)
+        ymin = rng.randint(-S, S - 1)
+        ymax = rng.randint(ymin + 1, S)
+        sx, sy = rng.choice([1, -1]), rng.choice([1, -1])
+        cx, cy = (xmin if sx > 0 else xmax), (ymin if sy > 0 else ymax)
+        x1, y1 = cx - sx * rng.randint(1, S), cy - sy * rng.randint(1, S)
+        for m in (rng.choice([2, 3, 4, 5]), 2):
+            x2, y2 = x1 + m * (cx - x1), y1 + m * (cy - y1)
+            if max(abs(x2), abs(y2)) <= 128:
+                break
+        if max(abs(x1), abs(y1), abs(x2), abs(y2)) > 128:
+            continue
+        if rng.random() < 0.5:
+            x1, y1, x2, y2 = x2, y2, x1, y1
+        e = {"x1": x1, "y1": y1, "x2": x2, "y2": y2, "xmin": xmin, "ymin": ymin, "xmax": xmax, "ymax": ymax, "vmap": rng.randint(1, len(VMAPS) - 1)}
+        va, vb, _nm = VMAPS[e["vmap"]]
+        f = lambda v, va=va, vb=vb: va * v + vb  # noqa: E731
+        seg, bnd = [[f(x1), f(y1)], [f(x2), f(y2)]], [[f(xmin), f(ymin)], [f(xmax), f(ymax)]]
+        status, acc, out = call(pu, seg, bnd, limit=0.25 if loops < 3 else 0.02)
+        loops += status == "loop"
+        odd = status != "ok" or acc is not True
+        if not odd:
+            try:
+                odd = not all(bnd[0][0] <= p[0] <= bnd[1][0] and bnd[0][1] <= p[1] <= bnd[1][1] for p in out)
+            except Exception:  # pylint: disable=broad-except
+                odd = True
+        (unusual if odd else rest).append((e, status, acc, out))
+    chosen = unusual[:600] + rest[:nsample]
+    evs = [c[0] for c in chosen]
+    verdicts, stats = vlib.judge_events(os.path.join(ctx.workdir, "vcorner"), "ClipTrace", "ClipTrace.cfg", evs)
+    ctx.states += stats["distinct"]
+    ctx.transitions += stats["generated"]
+    rej = 0
+    for (e, status, acc, out), ab in zip(chosen, verdicts):
+        va, vb, vname = VMAPS[e["vmap"]]
+        f = lambda v, va=va, vb=vb: va * v + vb  # noqa: E731
+        vals = [e[k] for k in ("x1", "y1", "x2", "y2", "xmin", "ymin", "xmax", "ymax")]
+        if ab["cls"] != "accept":
+            raise vlib.MachineryError("corner construction is not of class accept: %r" % (e,))
+        ctx.count(("Vc", tuple(vals), vname))
+        bad = judge(ab, status, acc, out, f, max(abs(f(v)) for v in vals))
+        if bad:
+            rej += 1
+            ctx.violation(bad[0], {"mode": "V", "in": vals, "map": [va, vb], "class": ab["cls"], "stage": "corner"}, bad[1], bad[2])
+            if ctx.enough(25):
+                break
+    ctx.traces += len(chosen)
+    ctx.stage("V-corner", kind="code->spec", candidates_run=len(unusual) + len(rest), unusual_outcomes=len(unusual), judged=len(chosen), rejected=rej,
+              note="unusual = not accepted / did not return / an end point a rounding error outside the rectangle (the failsafe's signature)")
+
+
 def run(ctx):
     pu = _pu()
     tier = ctx.tier
@@ -81,7 +149,7 @@ def run(ctx):
             seg = [[f(x1), f(y1)], [f(x2), f(y2)]]
             bnd = [[f(xmin), f(ymin)], [f(xmax), f(ymax)]]
             scale = max(abs(f(v)) for v in st["in"])
-            status, acc, out = call(pu, seg, bnd)
+            status, acc, out = call(pu, seg, bnd, tuples=(n % 3 == 0))
             ctx.count((tuple(st["in"]), mname))
             bad = judge(st["abs"], status, acc, out, f, scale)
             if bad:
@@ -119,38 +187,44 @@ def run(ctx):
             y2 = y1
         elif k < 0.4:
             x2, y2 = x1, y1
-        elif k < 0.5:     # pass through a corner: P2 = 2*corner - P1 (if on lattice)
+        elif k < 0.6:     # pass through a corner and go on: P2 = P1 + m*(corner - P1) (if on lattice)
             cx, cy = rng.choice([xmin, xmax]), rng.choice([ymin, ymax])
-            x2, y2 = 2 * cx - x1, 2 * cy - y1
+            m = rng.choice([2, 2, 3, 4, 5])
+            x2, y2 = x1 + m * (cx - x1), y1 + m * (cy - y1)
+            if abs(x2) > 128 or abs(y2) > 128:
+                x2, y2 = 2 * cx - x1, 2 * cy - y1
             if abs(x2) > 128 or abs(y2) > 128:
                 x2, y2 = cx, cy
-        evs.append({"x1": x1, "y1": y1, "x2": x2, "y2": y2, "xmin": xmin, "ymin": ymin, "xmax": xmax, "ymax": ymax})
+        evs.append({"x1": x1, "y1": y1, "x2": x2, "y2": y2, "xmin": xmin, "ymin": ymin, "xmax": xmax, "ymax": ymax, "vmap": rng.randrange(len(VMAPS))})
     verdicts, stats = vlib.judge_events(os.path.join(ctx.workdir, "v"), "ClipTrace", "ClipTrace.cfg", evs)
     ctx.states += stats["distinct"]
     ctx.transitions += stats["generated"]
-    f = lambda v: v / 8.0  # noqa: E731
     rej = 0
     for e, ab in zip(evs, verdicts):
         if ab["cls"] == "skip":
             ctx.skipped += 1
             continue
+        va, vb, vname = VMAPS[e["vmap"]]
+        f = lambda v, va=va, vb=vb: va * v + vb  # noqa: E731
         vals = [e[k] for k in ("x1", "y1", "x2", "y2", "xmin", "ymin", "xmax", "ymax")]
         status, acc, out = call(pu, [[f(e["x1"]), f(e["y1"])], [f(e["x2"]), f(e["y2"])]], [[f(e["xmin"]), f(e["ymin"])], [f(e["xmax"]), f(e["ymax"])]])
-        ctx.count(("V", tuple(vals)))
+        ctx.count(("V", tuple(vals), vname))
         classes[ab["cls"]] += 1
         bad = judge(ab, status, acc, out, f, max(abs(f(v)) for v in vals))
         if bad:
             rej += 1
-            ctx.violation(bad[0], {"mode": "V", "in": vals, "map": [0.125, 0.0], "class": ab["cls"]}, bad[1], bad[2])
+            ctx.violation(bad[0], {"mode": "V", "in": vals, "map": [va, vb], "class": ab["cls"]}, bad[1], bad[2])
     ctx.traces += len(evs)
+    corner_stage(ctx, pu, rng, 60000 if tier == "quick" else 1500000, 1500 if tier == "quick" else 40000)
     ctx.sample({"mode": "V", "event": evs[0], "abstract": verdicts[0]["cls"]})
     ctx.stage("V", kind="code->spec", events=len(evs), rejected=rej, classes_total=classes)
     ctx.trusted += ["TLC 1.8", "Rat.tla", "harness comparison of floats with TLC's exact rationals (|diff| <= 1e-9 * coordinate scale)", "vlib TLA value parser"]
-    ctx.assumptions += ["inputs are integer lattice points mapped through exact affine maps (and k/8, |k|<=128 in V); rounding on arbitrary doubles is not modelled",
+    ctx.assumptions += ["inputs are integer lattice points (|k|<=128 in V) mapped through affine maps, exact ones and inexact ones (x/3, 0.1x+0.7, x*pi) whose rounding noise is "
+                        "far below both the tolerance and the lattice's smallest non-zero miss distance; arbitrary doubles are not drawn",
                         "when the exact inside part is a single point of a proper segment (graze/touch) either verdict is allowed (tolerance band)"]
     return ctx.finish(
-        rule="G: every (segment, rectangle) of the lattice (rect corners 0..2|3 incl. zero-area, segment ends -1..3|4) x 5 affine maps; V: random dyadic-lattice "
-             "cases with corner/edge aiming; distinct = distinct (inputs, map)",
+        rule="G: every (segment, rectangle) of the lattice (rect corners 0..2|3 incl. zero-area, segment ends -1..3|4) x 8 affine maps (2 inexact); V: random lattice "
+             "cases with corner/edge aiming and through-corner segments under 4 maps (3 inexact: the precision failsafe is reached); distinct = distinct (inputs, map)",
         explanation="TLC checks on the whole lattice that Cohen-Sutherland as coded (one boundary per step, slope formula, failsafe) never divides by zero, stops "
                     "within 4 clips and returns exactly the parametric inside part with orientation kept; the real clip_segment is judged against the abstract "
                     "answer carried by each TLC state / computed by TLC for each recorded call.")
